@@ -377,6 +377,46 @@ class C08Rig:
         if "conn" not in res:
             raise RuntimeError("handshake failed: " + res.get("err", "timeout"))
         conn: socket.socket = res["conn"]
+        prelude_out = None
+        pre = case.get("prelude")
+        if pre:
+            # an EARLIER connection of the same Client object: subscriptions made on it, then the peer ends it (the
+            # client learns of it from read_message), then connect() again - the case proper runs on the new connection
+            conn.settimeout(0.2)
+            with watchdog(5.0):
+                if pre["sub_all"]:
+                    c.subscribe([cd.ALL_MESSAGE_TYPES])
+                elif pre["sub"]:
+                    c.subscribe(list(pre["sub"]))
+                for tpause in pre.get("pause", []):
+                    c.pause_subscription([tpause])
+            try:
+                while conn.recv(65536):
+                    pass
+            except (socket.timeout, OSError):
+                pass
+            if pre["end"] == "rst":
+                conn.setsockopt(socket.SOL_SOCKET, socket.SO_LINGER, struct.pack("ii", 1, 0))
+            conn.close()
+            deadline = time.time() + 2.0
+            while time.time() < deadline and tcp_state(c.sock) not in (7, 8):
+                time.sleep(0.0005)
+            try:
+                with watchdog(3.0):
+                    m = c.read_message(timeout=0.5)
+                prelude_out = ["none" if m is None else "msg", c.connected]
+            except Hang:
+                prelude_out = ["hang", c.connected]
+            except Exception as e:  # noqa
+                prelude_out = ["exc", type(e).__name__, "", c.connected]
+            res = {}
+            t = threading.Thread(target=self.handshake, args=(res,), daemon=True)
+            t.start()
+            c.connect(self.addr)
+            t.join(10.0)
+            if "conn" not in res:
+                raise RuntimeError("second handshake failed: " + res.get("err", "timeout"))
+            conn = res["conn"]
         stop = threading.Event()
         drainer = None
         writer = None
@@ -384,7 +424,7 @@ class C08Rig:
             chunks = [(bytes.fromhex(hx), d) for hx, d in case["chunks"]]
             total = sum(len(b) for b, _ in chunks)
             end = case["end"]
-            use_api = any(cl.get("via") == "api" for cl in case["calls"])
+            use_api = any(cl.get("via") in ("api", "api_add") for cl in case["calls"])
             if use_api:
                 if end != "open":
                     raise ValueError("api subscription changes need an open stream")
@@ -453,6 +493,13 @@ class C08Rig:
                     elif cl.get("via") == "api_pause_all":
                         with watchdog(5.0):
                             c.pause_all_subscriptions()
+                    elif cl.get("via") == "api_add":
+                        # only ADD subscriptions through the API, on top of whatever a (re)connected client starts with
+                        with watchdog(5.0):
+                            if cl.get("add"):
+                                c.subscribe(list(cl["add"]))
+                    elif cl.get("via") == "keep":
+                        pass
                     else:
                         c._sub_all = bool(cl["sub_all"])
                         c._subscribed_types = {cd.ALL_MESSAGE_TYPES} if cl["sub_all"] else set(cl["sub"])
@@ -462,7 +509,9 @@ class C08Rig:
                     want_pub = {cd.ALL_MESSAGE_TYPES} if cl["sub_all"] else set(cl["sub"])
                     pub_ok = set(c.subscribed_types) == want_pub
                     flag_ok = c._sub_all == bool(cl["sub_all"])
-                    if not pub_ok or (not flag_ok and not cl.get("via")):
+                    if cl.get("via") in ("api_add", "keep"):
+                        pass      # the state is the implementation's to get right: judged on what read_message returns
+                    elif not pub_ok or (not flag_ok and not cl.get("via")):
                         raise RuntimeError(f"could not establish subscription state {cl}: "
                                            f"{c._sub_all} {c.subscribed_types}")
                     # the clock the client consults while it discards queued messages it is not subscribed to runs FAST here
@@ -495,7 +544,8 @@ class C08Rig:
                     raise
                 except Exception as e:  # noqa
                     outs.append(["exc", type(e).__name__, "", c.connected])
-            return dict(outs=outs)
+            return dict(outs=outs, prelude=prelude_out,
+                        reported_subs=sorted(int(x) for x in c.subscribed_types) if pre else None)
         finally:
             stop.set()
             if writer is not None:
